@@ -261,6 +261,7 @@ const (
 	// see /docs/durable_writes_design.txt for definition.
 	tgLenBytes    = 8
 	tgIDBytes     = 8
+	wtCountBytes  = 8
 	checkSumBytes = 16
 )
 
@@ -272,6 +273,11 @@ func (wf *WALFileType) readTGData() (tgID int64, tgSerialized []byte, err error)
 	}
 	tgLen := io.ToInt64(tgLenSerialized)
 
+	// a transaction group is at least its ID and its write-set count; a shorter (or negative) length is
+	// what a torn or zero-filled tail of the log looks like
+	if tgLen < tgIDBytes+wtCountBytes {
+		return 0, nil, wal.ShortReadError(io.GetCallerFileContext(0) + fmt.Sprintf(": TG Length too short: %d", tgLen))
+	}
 	if !sanityCheckValue(wf.FilePtr, tgLen) {
 		return 0, nil, errors.New(io.GetCallerFileContext(0) + fmt.Sprintf(": Insane TG Length: %d", tgLen))
 	}
